@@ -8,12 +8,14 @@ length; an exception on a positive area inside the stated box is a violation.
 spokes_grad: all three axes obey the limits, have one length, and the x/y
 samples of spoke i (the i-th slice-select lobe) integrate to (k[i+1]-k[i])/4257.
 """
+import copy
 import math
 import warnings
 
 import numpy as np
 from hypothesis import strategies as st
 
+from vlib import arrays as A
 from vlib.runner import Part, R
 
 PROPERTY = "C20"
@@ -262,9 +264,14 @@ def st_spokes(draw):
         my -= draw(jd)
         ms.append([mx, my])
     ms.reverse()
+    kdtype = "float64"
+    if q >= 1 and draw(st.booleans()):
+        # spoke locations on an integer cycles/cm grid, handed over as an integer array (smaller steps than the room allows)
+        q = float(int(q)) if draw(st.booleans()) else 1.0
+        kdtype = draw(st.sampled_from(["int64", "int32", "float64"]))
     k = [[float(a) * q, float(c) * q] for a, c in ms]
     return {"f": "spokes_grad", "k": k, "tbw": tbw, "sl_thick": sl_thick, "gmax": gmax, "dgdt": dgdt, "gts": dt,
-            "stretch": stretch}
+            "stretch": stretch, "kdtype": kdtype}
 
 
 # ------------------------------------------------------------------ oracle helpers
@@ -275,6 +282,29 @@ def _call(fn):
         warnings.simplefilter("ignore")
         with np.errstate(all="ignore"):
             return fn()
+
+
+def _same(a, b):
+    if isinstance(a, (tuple, list)) or isinstance(b, (tuple, list)):
+        return (isinstance(a, (tuple, list)) and isinstance(b, (tuple, list)) and len(a) == len(b)
+                and all(_same(x, y) for x, y in zip(a, b)))
+    if isinstance(a, np.ndarray) or isinstance(b, np.ndarray):
+        a, b = np.asarray(a), np.asarray(b)
+        return a.shape == b.shape and a.dtype == b.dtype and np.array_equal(a, b, equal_nan=True)
+    return a == b
+
+
+def _call2(r, key, fn):
+    """Call, keep a private copy of the result, overwrite the returned arrays in place (the caller owns them:
+    g *= -1 makes a rewinder), call again with the same arguments: the second result must equal the first."""
+    first = _call(fn)
+    keep = copy.deepcopy(first)
+    if A.scribble(first):
+        again = _call(fn)
+        if not _same(again, keep):
+            r.fail(key + ":depends-on-history", "a second call with the same arguments, after the first result was "
+                   "overwritten in place by its owner, returned a different waveform")
+    return keep
 
 
 def _raise_key(e):
@@ -328,7 +358,7 @@ def check_trap(case):
         r.label("gmax/(dgdt*dt)<1")
     r.sig = "trap|%r|%r|%r|%r" % (area, gmax, dgdt, dt)
     try:
-        out = _call(lambda: rf.trap_grad(area, gmax, dgdt, dt))
+        out = _call2(r, "trap_grad", lambda: rf.trap_grad(area, gmax, dgdt, dt))
         g = np.asarray(out[0], dtype=float).reshape(-1)
         ramppts = out[1]
     except Exception as e:  # every positive area in the box must be designed
@@ -374,7 +404,7 @@ def check_mintrap(case):
         r.label("gmax/(dgdt*dt)<1")
     r.sig = "mintrap|%r|%r|%r|%r" % (area, gmax, dgdt, dt)
     try:
-        out = _call(lambda: rf.min_trap_grad(area, gmax, dgdt, dt))
+        out = _call2(r, "min_trap_grad", lambda: rf.min_trap_grad(area, gmax, dgdt, dt))
         g = np.asarray(out[0], dtype=float).reshape(-1)
         ramppts = out[1]
     except Exception as e:
@@ -448,7 +478,10 @@ def check_spokes(case):
     if np.any(dk == 0):
         r.label("zero-increment")
     try:
-        g = np.asarray(_call(lambda: rf.spokes_grad(k.copy(), tbw, sl, gmax, dgdt, gts)), dtype=float)
+        kin = k.astype(case.get("kdtype", "float64"))
+        if kin.dtype.kind != "f":
+            r.label("k:integer-dtype")
+        g = np.asarray(_call2(r, "spokes_grad", lambda: rf.spokes_grad(kin.copy(), tbw, sl, gmax, dgdt, gts)), dtype=float)
     except Exception as e:
         m = str(e)
         key = "length-mismatch" if ("must match exactly" in m or "inhomogeneous" in m) else _raise_key(e)
